@@ -1,7 +1,7 @@
 """Manifest metadata (tools/gen_manifest.py turns it into MANIFEST.json)."""
 HOOK_COMMITS = ['621a573', '7ae3ccb', 'fa7b761']
 ENGINES = [
-    dict(name='verus-extract', path='/verif/vlib', serves_properties=['C04', 'C05', 'C06', 'C08', 'C12', 'C14', 'C15', 'C17', 'C20'],
+    dict(name='verus-extract', path='/verif/vlib', serves_properties=['C04', 'C05', 'C06', 'C08', 'C12', 'C13', 'C14', 'C15', 'C17', 'C20'],
          kind_free_text='Verus 0.2026.09.13 on functions extracted mechanically from /repo on every run, contracts injected from /verif/units/<unit>/unit.rs'),
     dict(name='kani-contracts', path='/verif/kani', serves_properties=['C01', 'C02', 'C03', 'C06', 'C07', 'C10', 'C11', 'C15', 'C16', 'C17', 'C18', 'C19', 'C20'],
          kind_free_text='Kani 0.68 function contracts (proof_for_contract) and loop-free full-domain harnesses on the real crates of /repo (path dependencies), CBMC 6.11'),
@@ -10,9 +10,15 @@ NOTES = ('Contract-based deductive verification. exit 0 = all obligations discha
          'exit 2 = undecided (lost anchor / unsupported construct / timeout), never an alarm. See DESIGN.md.')
 NOT_APPLICABLE = {
     'C09': 'graph traversal lives in petgraph (DfsPostOrder) behind HRTB + raw pointers; Verus cannot parse it and a contract would only restate assumed petgraph contracts; Kani on real petgraph measured: no result in 15 min for 3 nodes (DESIGN.md §7)',
-    'C13': 'bus state is BTreeMap+VecDeque behind Rc<RefCell> driven by std iterator closures: no Verus model, Kani measured >10 min for 2 outputs x 2 ops (DESIGN.md §7)',
 }
 CHECKS = {
+    'C13': dict(
+        engine='verus-extract', category='proof',
+        technique='Verus: SharedNode::{next_frame, pending_frames, drop_output} extracted and verified against an abstract view, with contract-only stand-ins for BTreeMap/VecDeque; inductive-step lemmas with a ghost history',
+        text='The three functions that hold the bus logic are verified (on the extracted text, six std-iterator/indexing expressions read through stand-in helper methods) to preserve the invariant "every read count is within the backlog and, when the backlog is non-empty, some live output has read none of it" and to meet a per-call contract: an output at the end of the backlog pulls exactly one source frame, any other output pulls none and receives backlog[its count]; the oldest frame is released exactly when the caller was the only output still needing it; dropping an output trims the backlog to what the slowest remaining output needs (empty when none remain). lemma_bus_next shows from this contract that every output observes the common history at its own position without loss, duplication or reordering and that the source is pulled once per distinct frame; pending count == frames pulled but not yet received.',
+        note='ASSUMED: contracts of the std collections (stand-ins) and of the six substituted iterator expressions; NOT verified: Bus::send, Output/Drop plumbing (Rc<RefCell>). Proof of the step relation from every state satisfying the invariant (covers every finite op sequence through those three functions).',
+        design_ref='DESIGN.md §11.9',
+    ),
     'C07': dict(
         engine='kani-contracts', category='model_checking',
         technique='allocator put under contract: std::alloc entry points stubbed with precondition `!STEADY`; bounded Kani harnesses over a stated API surface',
